@@ -2,18 +2,25 @@ package main
 
 import (
 	"go/ast"
+	"go/token"
+	"sort"
 	"strings"
 )
 
-// C10 / C09 structural facts.
+// C10 / C09 structural facts. Anchors are found by SHAPE (exported API names and the structure of statements), never
+// by the names of locals, receivers or unexported helpers; a fact whose anchor has a shape the translator does not
+// understand is reported `Unavailable` (generated `none`, obligation vacuous) — see the top comment of main.go.
 //
-// C10: for each of the six MPC process kinds, the lock-relevant events of the constructor, Run and Stop in
-// source order:  L (LockKeyshare)  U (UnlockKeyshare)  dU (deferred UnlockKeyshare)  G (GetKeyshare)
-//                W (a `.Wait()` call: the protocol runs until it returns)
-//                ret (a return nested in a block: conditional early exit; `rete` when a constructor returns an error there)
-//                end (the function's final return / falling off the end)
-//                ?x  (a lock call inside a closure or anything else the table cannot express)
-// C09: the admission prologue of Coordinator.Execute as top-level events up to the `defer`.
+// C10  per process kind: the PATHS through the constructor, Run and Stop, each as its sequence of lock-relevant events
+//        L (LockKeyshare)  U (UnlockKeyshare)  dU (deferred UnlockKeyshare)  G (GetKeyshare)  W (`.Wait()`: the protocol runs)
+//      and the way it leaves:  full | early (Run: left before the protocol ran) | ctorerr (constructor returns an error).
+//      Paths are enumerated over the statement structure (if / else / return), so an unlock written out on every exit
+//      is the same fact as a deferred one. The obligations (Oblig/C10.lean) are about these paths SEMANTICALLY: every
+//      combination is balanced etc. — not an equality with a table.
+//      Coordinator.Execute: are the processes stopped on the refusal branch and in the deferred exit block (a Stop
+//      loop directly, or through ONE level of same-file helper); the three event handlers: constructor → Execute.
+// C09  the admission prologue of Coordinator.Execute and every access to the pending map, located through the
+//      struct's field TYPES (the sync.Mutex field, the map[string]bool field).
 
 type c10kind struct{ name, file, ctor, recv string }
 
@@ -35,132 +42,568 @@ func selName(e ast.Expr) string {
 	return ""
 }
 
-// lockEvents linearises a function body.
-func lockEvents(fd *ast.FuncDecl, isCtor bool) []string {
-	if fd == nil || fd.Body == nil {
-		return []string{"?missing"}
+// ---------------------------------------------------------------- path enumeration
+
+type lpath struct {
+	ev     []string
+	exited bool
+	exit   string // full | ctorerr (set when exited)
+}
+
+type penum struct {
+	isCtor bool      // a constructor whose last result is an `error`
+	bad    string    // why the function is not understood ("" = fine)
+	file   *ast.File // for one level of same-file helpers
+	depth  int
+}
+
+// helperEvents: the lock events of a same-file function / method that is called here, when its body is straight-line
+// as far as the lock is concerned (one level only).
+func (p *penum) helperEvents(c *ast.CallExpr) []string {
+	if p.file == nil || p.depth > 0 {
+		return nil
 	}
+	name := ""
+	switch fn := c.Fun.(type) {
+	case *ast.Ident:
+		name = fn.Name
+	case *ast.SelectorExpr:
+		name = fn.Sel.Name
+	}
+	if name == "" || lockEv(name) != "" {
+		return nil
+	}
+	for _, d := range p.file.Decls {
+		fd, ok := d.(*ast.FuncDecl)
+		if !ok || fd.Name.Name != name || fd.Body == nil {
+			continue
+		}
+		if l, _ := hasLockOrReturn(fd.Body); !l {
+			return nil
+		}
+		q := &penum{file: p.file, depth: 1}
+		res := q.walk(fd.Body.List, []lpath{{}})
+		if q.bad != "" || len(res) != 1 {
+			p.bad = "a helper with conditional key-share lock calls (" + name + ")"
+			return nil
+		}
+		return res[0].ev
+	}
+	return nil
+}
+
+func lockEv(name string) string {
+	switch name {
+	case "LockKeyshare":
+		return "L"
+	case "UnlockKeyshare":
+		return "U"
+	case "GetKeyshare":
+		return "G"
+	case "Wait":
+		return "W"
+	}
+	return ""
+}
+
+// exprEvents: lock-relevant calls inside an expression / simple statement, in source order. A lock call inside a
+// function literal or a `go` statement is beyond the translator.
+func (p *penum) exprEvents(n ast.Node) []string {
 	ev := []string{}
-	top := map[ast.Stmt]bool{}
-	for _, s := range fd.Body.List {
-		top[s] = true
+	if n == nil {
+		return ev
 	}
-	var visit func(n ast.Node, inClosure bool)
-	visit = func(n ast.Node, inClosure bool) {
-		ast.Inspect(n, func(m ast.Node) bool {
-			switch x := m.(type) {
-			case *ast.FuncLit:
-				if x != n {
-					visit(x.Body, true)
-					return false
-				}
-			case *ast.DeferStmt:
-				switch selName(x.Call) {
-				case "UnlockKeyshare":
-					if inClosure {
-						ev = append(ev, "?dU")
-					} else {
-						ev = append(ev, "dU")
-					}
-					return false
-				case "LockKeyshare":
-					ev = append(ev, "?dL")
-					return false
-				}
-			case *ast.GoStmt:
-				if n := selName(x.Call); n == "UnlockKeyshare" || n == "LockKeyshare" {
-					ev = append(ev, "?go")
-					return false
-				}
-			case *ast.CallExpr:
-				p := ""
-				if inClosure {
-					p = "?"
-				}
-				switch selName(x) {
-				case "LockKeyshare":
-					ev = append(ev, p+"L")
-				case "UnlockKeyshare":
-					ev = append(ev, p+"U")
-				case "GetKeyshare":
-					ev = append(ev, "G")
-				case "Wait":
-					if !inClosure {
-						ev = append(ev, "W")
+	ast.Inspect(n, func(m ast.Node) bool {
+		switch x := m.(type) {
+		case *ast.FuncLit:
+			ast.Inspect(x.Body, func(k ast.Node) bool {
+				if c, ok := k.(*ast.CallExpr); ok {
+					if e := lockEv(selName(c)); e == "L" || e == "U" {
+						p.bad = "a key-share lock call inside a function literal"
 					}
 				}
-			case *ast.ReturnStmt:
-				if inClosure {
-					return true
-				}
-				for _, r := range x.Results {
-					visit(r, false)
-				}
-				if top[x] {
-					ev = append(ev, "end")
-				} else if isCtor && len(x.Results) > 0 && Src(x.Results[len(x.Results)-1]) != "nil" {
-					ev = append(ev, "rete")
-				} else {
-					ev = append(ev, "ret")
-				}
-				return false
+				return true
+			})
+			return false
+		case *ast.CallExpr:
+			// arguments and receiver first (they are evaluated before the call)
+			for _, a := range x.Args {
+				ev = append(ev, p.exprEvents(a)...)
 			}
-			return true
-		})
-	}
-	visit(fd.Body, false)
-	if len(ev) == 0 || ev[len(ev)-1] != "end" {
-		ev = append(ev, "end")
-	}
+			if s, ok := x.Fun.(*ast.SelectorExpr); ok {
+				ev = append(ev, p.exprEvents(s.X)...)
+			}
+			if e := lockEv(selName(x)); e != "" {
+				ev = append(ev, e)
+			} else {
+				ev = append(ev, p.helperEvents(x)...)
+			}
+			return false
+		}
+		return true
+	})
 	return ev
+}
+
+func hasLockOrReturn(n ast.Node) (lock, ret bool) {
+	ast.Inspect(n, func(m ast.Node) bool {
+		switch x := m.(type) {
+		case *ast.FuncLit:
+			return false
+		case *ast.ReturnStmt:
+			ret = true
+		case *ast.CallExpr:
+			if e := lockEv(selName(x)); e == "L" || e == "U" {
+				lock = true
+			}
+		}
+		return true
+	})
+	return
+}
+
+func clone(xs []string, more ...string) []string {
+	out := make([]string, 0, len(xs)+len(more))
+	out = append(out, xs...)
+	return append(out, more...)
+}
+
+// walk runs the statement list on every path that is still inside the function.
+func (p *penum) walk(stmts []ast.Stmt, in []lpath) []lpath {
+	cur := in
+	for _, st := range stmts {
+		next := []lpath{}
+		for _, pa := range cur {
+			if pa.exited {
+				next = append(next, pa)
+				continue
+			}
+			next = append(next, p.stmt(st, pa)...)
+		}
+		cur = dedupe(next)
+		if len(cur) > 256 {
+			p.bad = "too many paths"
+			return cur
+		}
+	}
+	return cur
+}
+
+func (p *penum) stmt(st ast.Stmt, pa lpath) []lpath {
+	switch s := st.(type) {
+	case *ast.ReturnStmt:
+		ev := clone(pa.ev)
+		for _, r := range s.Results {
+			ev = append(ev, p.exprEvents(r)...)
+		}
+		exit := "full"
+		if p.isCtor && len(s.Results) > 0 {
+			if id, ok := s.Results[len(s.Results)-1].(*ast.Ident); !ok || id.Name != "nil" {
+				exit = "ctorerr"
+			}
+		}
+		return []lpath{{ev: ev, exited: true, exit: exit}}
+	case *ast.DeferStmt:
+		switch lockEv(selName(s.Call)) {
+		case "U":
+			return []lpath{{ev: clone(pa.ev, "dU")}}
+		case "L":
+			p.bad = "a deferred LockKeyshare"
+			return []lpath{pa}
+		}
+		if fl, ok := s.Call.Fun.(*ast.FuncLit); ok {
+			if l, _ := hasLockOrReturn(fl.Body); l {
+				// `defer func() { …UnlockKeyshare()… }()`: understood when the literal's body is straight-line
+				n := 0
+				for _, b := range fl.Body.List {
+					if es, ok := b.(*ast.ExprStmt); ok && lockEv(selName(es.X)) == "U" {
+						n++
+					} else if l2, _ := hasLockOrReturn(b); l2 {
+						p.bad = "a deferred function literal with conditional lock calls"
+					}
+				}
+				ev := clone(pa.ev)
+				for i := 0; i < n; i++ {
+					ev = append(ev, "dU")
+				}
+				return []lpath{{ev: ev}}
+			}
+		}
+		return []lpath{pa}
+	case *ast.GoStmt:
+		if l, _ := hasLockOrReturn(s.Call); l {
+			p.bad = "a key-share lock call in a go statement"
+		}
+		if fl, ok := s.Call.Fun.(*ast.FuncLit); ok {
+			ast.Inspect(fl.Body, func(k ast.Node) bool {
+				if c, ok := k.(*ast.CallExpr); ok {
+					if e := lockEv(selName(c)); e == "L" || e == "U" {
+						p.bad = "a key-share lock call in a goroutine"
+					}
+				}
+				return true
+			})
+		}
+		return []lpath{pa}
+	case *ast.IfStmt:
+		pre := clone(pa.ev)
+		if s.Init != nil {
+			pre = append(pre, p.exprEvents(s.Init)...)
+		}
+		pre = append(pre, p.exprEvents(s.Cond)...)
+		thenP := p.walk(s.Body.List, []lpath{{ev: clone(pre)}})
+		var elseP []lpath
+		switch e := s.Else.(type) {
+		case nil:
+			elseP = []lpath{{ev: clone(pre)}}
+		case *ast.BlockStmt:
+			elseP = p.walk(e.List, []lpath{{ev: clone(pre)}})
+		case *ast.IfStmt:
+			elseP = p.stmt(e, lpath{ev: clone(pre)})
+		}
+		return append(thenP, elseP...)
+	case *ast.BlockStmt:
+		return p.walk(s.List, []lpath{pa})
+	case *ast.ForStmt, *ast.RangeStmt, *ast.SwitchStmt, *ast.TypeSwitchStmt, *ast.SelectStmt:
+		l, r := hasLockOrReturn(st)
+		if l {
+			p.bad = "a key-share lock call inside a loop / switch / select"
+			return []lpath{pa}
+		}
+		if r { // may leave here, may go on
+			exit := "full"
+			if p.isCtor {
+				exit = "ctorerr"
+			}
+			return []lpath{{ev: clone(pa.ev, p.exprEvents(st)...), exited: true, exit: exit}, {ev: clone(pa.ev, p.exprEvents(st)...)}}
+		}
+		return []lpath{{ev: clone(pa.ev, p.exprEvents(st)...)}}
+	default:
+		return []lpath{{ev: clone(pa.ev, p.exprEvents(st)...)}}
+	}
+}
+
+func dedupe(ps []lpath) []lpath {
+	seen := map[string]bool{}
+	out := []lpath{}
+	for _, x := range ps {
+		k := strings.Join(x.ev, ",") + "|" + x.exit
+		if x.exited {
+			k += "|x"
+		}
+		if !seen[k] {
+			seen[k] = true
+			out = append(out, x)
+		}
+	}
+	return out
+}
+
+// funcPaths: (exit, events) of every path through fd. Run: a path that passed a Wait is `full`, one that did not `early`.
+func funcPaths(f *ast.File, fd *ast.FuncDecl, role string) (paths [][2]string, why string) {
+	if fd == nil || fd.Body == nil {
+		return nil, "function not found"
+	}
+	returnsError := false
+	if r := fd.Type.Results; r != nil && len(r.List) > 0 {
+		returnsError = Src(r.List[len(r.List)-1].Type) == "error"
+	}
+	p := &penum{isCtor: role == "ctor" && returnsError, file: f}
+	res := p.walk(fd.Body.List, []lpath{{}})
+	if p.bad != "" {
+		return nil, p.bad
+	}
+	seen := map[string]bool{}
+	for _, x := range res {
+		exit := x.exit
+		if !x.exited {
+			exit = "full" // fell off the end
+		}
+		if role == "run" {
+			exit = "early"
+			for _, e := range x.ev {
+				if e == "W" {
+					exit = "full"
+				}
+			}
+		}
+		if role == "stop" {
+			exit = "full"
+		}
+		k := exit + ":" + strings.Join(x.ev, ",")
+		if !seen[k] {
+			seen[k] = true
+			paths = append(paths, [2]string{exit, strings.Join(x.ev, ",")})
+		}
+	}
+	sort.Slice(paths, func(i, j int) bool { return paths[i][0]+paths[i][1] < paths[j][0]+paths[j][1] })
+	return paths, ""
+}
+
+func leanPaths(ps [][2]string) string {
+	rows := []string{}
+	for _, p := range ps {
+		ev := []string{}
+		if p[1] != "" {
+			ev = strings.Split(p[1], ",")
+		}
+		rows = append(rows, "("+LeanStr(p[0])+", "+LeanStrList(ev)+")")
+	}
+	return "[" + strings.Join(rows, ", ") + "]"
+}
+
+// methodOf finds a method by name on a receiver type; if the name is gone, by receiver + signature.
+func methodOf(f *ast.File, recv, name, sig string) *ast.FuncDecl {
+	if fd := FindFunc(f, recv, name); fd != nil {
+		return fd
+	}
+	if f == nil || sig == "" {
+		return nil
+	}
+	var found *ast.FuncDecl
+	for _, d := range f.Decls {
+		m, ok := d.(*ast.FuncDecl)
+		if !ok || m.Recv == nil || len(m.Recv.List) != 1 {
+			continue
+		}
+		t := m.Recv.List[0].Type
+		if s, ok := t.(*ast.StarExpr); ok {
+			t = s.X
+		}
+		if id, ok := t.(*ast.Ident); ok && id.Name == recv && Src(m.Type) == sig {
+			if found != nil {
+				return nil // ambiguous
+			}
+			found = m
+		}
+	}
+	return found
 }
 
 func init() {
 	extractors["C10"] = func(o *Out) {
-		o.Lean.WriteString("/-- (kind, constructor events, Run events, Stop events) in source order; see harness/sygx/c10.go -/\n")
-		o.Lean.WriteString("def facts : List (String × List String × List String × List String) := [\n")
+		o.Lean.WriteString("/-- per process kind: the paths (how it leaves, lock-relevant events in order) through the constructor, Run and\n    Stop; `none` = not located / not understood. See harness/sygx/c10.go. -/\n")
+		o.Lean.WriteString("def procs : List (String × Option (List (String × List String) × List (String × List String) × List (String × List String))) := [\n")
 		rows := []string{}
 		for _, k := range c10kinds {
 			f := o.ParseFile(k.file)
-			c := lockEvents(FindFunc(f, "", k.ctor), true)
-			r := lockEvents(FindFunc(f, k.recv, "Run"), false)
-			s := lockEvents(FindFunc(f, k.recv, "Stop"), false)
-			o.Facts[k.name] = map[string][]string{"ctor": c, "run": r, "stop": s}
-			rows = append(rows, "  ("+LeanStr(k.name)+", "+LeanStrList(c)+", "+LeanStrList(r)+", "+LeanStrList(s)+")")
+			c, why1 := funcPaths(f, FindFunc(f, "", k.ctor), "ctor")
+			r, why2 := funcPaths(f, FindFunc(f, k.recv, "Run"), "run")
+			s, why3 := funcPaths(f, FindFunc(f, k.recv, "Stop"), "stop")
+			why := why1
+			if why == "" {
+				why = why2
+			}
+			if why == "" {
+				why = why3
+			}
+			if why == "" {
+				hasW := false
+				for _, p := range r {
+					if p[0] == "full" {
+						hasW = true
+					}
+				}
+				if !hasW {
+					why = "Run has no path through a Wait() call (the protocol run is not located)"
+				}
+			}
+			if why != "" {
+				o.Unavailable("procs."+k.name, why)
+				rows = append(rows, "  ("+LeanStr(k.name)+", none)")
+				continue
+			}
+			o.Facts[k.name] = map[string]interface{}{"ctor": c, "run": r, "stop": s}
+			rows = append(rows, "  ("+LeanStr(k.name)+", some ("+leanPaths(c)+",\n      "+leanPaths(r)+",\n      "+leanPaths(s)+"))")
 		}
 		o.Lean.WriteString(strings.Join(rows, ",\n") + "]\n\n")
-		// the production entry points: what each event handler does from the constructor call on, in source order
+
+		// the production entry points: what each event handler does from the process constructor on, in source order
 		hf := o.ParseFile("chains/evm/listener/eventHandlers/tss.go")
-		o.Lean.WriteString("/-- event handlers of chains/evm/listener/eventHandlers/tss.go: from the process constructor on, in source order:\n    new (NewKeygen/NewResharing) | execute (coordinator.Execute) | stop (a Stop call) | ret (a return) -/\n")
-		o.Lean.WriteString("def handlers : List (String × List String) := [\n")
+		o.Lean.WriteString("/-- event handlers of chains/evm/listener/eventHandlers/tss.go, from the process constructor on, in source order:\n    new (New…(…) of a tss process) | execute (….Execute(ctx, processes, chan)) | stop (a Stop call) | ret (a return) -/\n")
+		o.Lean.WriteString("def handlers : List (String × Option (List String)) := [\n")
 		hrows := []string{}
 		for _, recv := range []string{"KeygenEventHandler", "FrostKeygenEventHandler", "RefreshEventHandler"} {
-			ev := handlerEvents(FindFunc(hf, recv, "HandleEvents"))
+			ev, ok := handlerEvents(methodOf(hf, recv, "HandleEvents", "func(startBlock *big.Int, endBlock *big.Int) error"))
+			if !ok {
+				o.Unavailable("handlers."+recv, "constructor → Execute not found as direct statements of the handler (moved into a helper?)")
+			}
 			o.Facts["handler:"+recv] = ev
-			hrows = append(hrows, "  ("+LeanStr(recv)+", "+LeanStrList(ev)+")")
+			hrows = append(hrows, "  ("+LeanStr(recv)+", "+LeanOpt(ok, LeanStrList(ev))+")")
 		}
 		o.Lean.WriteString(strings.Join(hrows, ",\n") + "]\n\n")
-		// the coordinator: does the refusal branch stop the processes, does the deferred block
+
 		refusal, deferred := execFacts(o)
-		o.Lean.WriteString("/-- `Coordinator.Execute`: the duplicate-refusal branch calls Stop on the processes -/\n")
-		o.Lean.WriteString("def refusalStops : Bool := " + boolLean(refusal) + "\n")
-		o.Lean.WriteString("/-- `Coordinator.Execute`: the deferred exit block calls Stop on the processes -/\n")
-		o.Lean.WriteString("def deferStops : Bool := " + boolLean(deferred) + "\n")
+		o.Lean.WriteString("/-- `Coordinator.Execute`: the duplicate-refusal branch stops the processes (directly or through one helper) -/\n")
+		o.Lean.WriteString("def refusalStops : Option Bool := " + refusal + "\n")
+		o.Lean.WriteString("/-- `Coordinator.Execute`: the deferred exit block stops the processes -/\n")
+		o.Lean.WriteString("def deferStops : Option Bool := " + deferred + "\n")
 	}
-	extractors["C09"] = func(o *Out) {
-		branch := []string{}
-		ev := admissionEvents(o, &branch)
-		o.Facts["admission"] = ev
-		o.Facts["refusal_branch"] = branch
-		o.Lean.WriteString("/-- top-level events of `Coordinator.Execute` up to its `defer`: yield | lock | unlock | set | test (the `if` on\n    pendingProcesses) | read (pendingProcesses read outside an `if`) -/\n")
-		o.Lean.WriteString("def admission : List String := " + LeanStrList(ev) + "\n\n")
-		o.Lean.WriteString("/-- what the body of that `if` does: read (the flag is read in its condition) | unlock | stop | ret -/\n")
-		o.Lean.WriteString("def refusalBranch : List String := " + LeanStrList(branch) + "\n\n")
-		un := unlockedAccesses(o)
-		o.Facts["pending_accesses_outside_lock"] = un
-		o.Lean.WriteString("/-- functions of tss/coordinator.go that touch `pendingProcesses` at top level without holding processLock -/\n")
-		o.Lean.WriteString("def unlockedAccesses : List String := " + LeanStrList(un) + "\n")
+	extractors["C09"] = c09facts
+}
+
+// ---------------------------------------------------------------- Coordinator facts (shared by C09 and C10)
+
+// coordFields: the Coordinator struct's mutex field and its map[string]bool field, by TYPE.
+func coordFields(f *ast.File) (lock, pending string) {
+	if f == nil {
+		return
 	}
+	for _, d := range f.Decls {
+		gd, ok := d.(*ast.GenDecl)
+		if !ok {
+			continue
+		}
+		for _, sp := range gd.Specs {
+			ts, ok := sp.(*ast.TypeSpec)
+			if !ok || ts.Name.Name != "Coordinator" {
+				continue
+			}
+			st, ok := ts.Type.(*ast.StructType)
+			if !ok {
+				continue
+			}
+			for _, fl := range st.Fields.List {
+				t := Src(fl.Type)
+				for _, n := range fl.Names {
+					switch t {
+					case "sync.Mutex", "*sync.Mutex", "sync.RWMutex", "*sync.RWMutex":
+						lock = n.Name
+					case "map[string]bool":
+						pending = n.Name
+					}
+				}
+			}
+		}
+	}
+	return
+}
+
+// executeFunc: Coordinator.Execute, or — if renamed — the method of Coordinator taking (ctx, []TssProcess, chan interface{}).
+func executeFunc(f *ast.File) *ast.FuncDecl {
+	return methodOf(f, "Coordinator", "Execute", "func(ctx context.Context, tssProcesses []TssProcess, resultChn chan interface{}) error")
+}
+
+// callsStop: does n stop the processes — a `.Stop()` call inside, or a call to a same-file function whose body has one
+// (one level)? unknown = there are calls to same-file helpers we did not look into further.
+func callsStop(f *ast.File, n ast.Node) (stops bool) {
+	if n == nil {
+		return false
+	}
+	direct := false
+	helpers := []*ast.FuncDecl{}
+	ast.Inspect(n, func(m ast.Node) bool {
+		c, ok := m.(*ast.CallExpr)
+		if !ok {
+			return true
+		}
+		if selName(c) == "Stop" {
+			direct = true
+		}
+		name := ""
+		switch fn := c.Fun.(type) {
+		case *ast.Ident:
+			name = fn.Name
+		case *ast.SelectorExpr:
+			name = fn.Sel.Name
+		}
+		for _, d := range f.Decls {
+			if fd, ok := d.(*ast.FuncDecl); ok && fd.Name.Name == name && fd.Body != nil {
+				helpers = append(helpers, fd)
+			}
+		}
+		return true
+	})
+	if direct {
+		return true
+	}
+	for _, h := range helpers {
+		found := false
+		ast.Inspect(h.Body, func(m ast.Node) bool {
+			if c, ok := m.(*ast.CallExpr); ok && selName(c) == "Stop" {
+				found = true
+			}
+			return true
+		})
+		if found {
+			return true
+		}
+	}
+	return false
+}
+
+func mentionsField(n ast.Node, field string) bool {
+	found := false
+	if n == nil || field == "" {
+		return false
+	}
+	ast.Inspect(n, func(m ast.Node) bool {
+		if s, ok := m.(*ast.SelectorExpr); ok && s.Sel.Name == field {
+			found = true
+		}
+		return true
+	})
+	return found
+}
+
+func refersToAny(n ast.Node, names map[string]bool) bool {
+	found := false
+	if n == nil {
+		return false
+	}
+	ast.Inspect(n, func(m ast.Node) bool {
+		if id, ok := m.(*ast.Ident); ok && names[id.Name] {
+			found = true
+		}
+		return true
+	})
+	return found
+}
+
+// execFacts: Option Bool terms for refusalStops / deferStops.
+func execFacts(o *Out) (refusal, deferred string) {
+	refusal, deferred = "none", "none"
+	f := o.ParseFile("tss/coordinator.go")
+	fd := executeFunc(f)
+	_, pending := coordFields(f)
+	if fd == nil || pending == "" {
+		o.Unavailable("refusalStops", "Coordinator.Execute or the pending map not located")
+		o.Unavailable("deferStops", "Coordinator.Execute not located")
+		return
+	}
+	locals := map[string]bool{}
+	foundRefusal, foundDefer := false, false
+	for _, st := range fd.Body.List {
+		switch s := st.(type) {
+		case *ast.AssignStmt:
+			if mentionsField(s, pending) {
+				for _, l := range s.Lhs {
+					if id, ok := l.(*ast.Ident); ok {
+						locals[id.Name] = true
+					}
+				}
+			}
+		case *ast.IfStmt:
+			if !foundRefusal && (mentionsField(s.Cond, pending) || mentionsField(s.Init, pending) || refersToAny(s.Cond, locals)) {
+				if _, r := hasLockOrReturn(s.Body); r {
+					foundRefusal = true
+					refusal = LeanOpt(true, boolLean(callsStop(f, s.Body)))
+				}
+			}
+		case *ast.DeferStmt:
+			if fl, ok := s.Call.Fun.(*ast.FuncLit); ok && mentionsField(fl.Body, pending) {
+				foundDefer = true
+				deferred = LeanOpt(true, boolLean(callsStop(f, fl.Body)))
+			}
+		}
+	}
+	if !foundRefusal {
+		o.Unavailable("refusalStops", "the branch of Execute that refuses a pending session is not a direct `if` on the pending map")
+	}
+	if !foundDefer {
+		o.Unavailable("deferStops", "the deferred block of Execute that clears the pending flag was not located")
+	}
+	return
 }
 
 func boolLean(b bool) string {
@@ -170,194 +613,20 @@ func boolLean(b bool) string {
 	return "false"
 }
 
-func containsCall(n ast.Node, name string) bool {
-	found := false
-	Walk(n, func(m ast.Node) bool {
-		if c, ok := m.(*ast.CallExpr); ok && selName(c) == name {
-			found = true
-		}
-		return true
-	})
-	return found
-}
-
-func mentions(n ast.Node, ident string) bool {
-	found := false
-	Walk(n, func(m ast.Node) bool {
-		if s, ok := m.(*ast.SelectorExpr); ok && s.Sel.Name == ident {
-			found = true
-		}
-		return true
-	})
-	return found
-}
-
-func execFacts(o *Out) (refusal, deferred bool) {
-	f := o.ParseFile("tss/coordinator.go")
-	fd := FindFunc(f, "Coordinator", "Execute")
-	if fd == nil {
-		return
-	}
-	for _, st := range fd.Body.List {
-		switch s := st.(type) {
-		case *ast.IfStmt:
-			if mentions(s.Cond, "pendingProcesses") || mentions(s.Init, "pendingProcesses") {
-				refusal = containsCall(s.Body, "Stop")
-			}
-		case *ast.DeferStmt:
-			if containsCall(s.Call, "Stop") && !containsCall(s.Call, "ticker") {
-				deferred = true
-			}
-		}
-	}
-	return
-}
-
-// admissionEvents: top-level statements of Execute before the first defer.
-func admissionEvents(o *Out, branch *[]string) []string {
-	f := o.ParseFile("tss/coordinator.go")
-	fd := FindFunc(f, "Coordinator", "Execute")
-	ev := []string{}
-	if fd == nil {
-		return []string{"?missing"}
-	}
-	for _, st := range fd.Body.List {
-		if _, ok := st.(*ast.DeferStmt); ok {
-			break
-		}
-		switch s := st.(type) {
-		case *ast.ExprStmt:
-			src := Src(s.X)
-			switch {
-			case strings.HasPrefix(src, "verifhook.Yield("):
-				ev = append(ev, "yield")
-			case src == "c.processLock.Lock()":
-				ev = append(ev, "lock")
-			case src == "c.processLock.Unlock()":
-				ev = append(ev, "unlock")
-			case mentions(s.X, "pendingProcesses"):
-				ev = append(ev, "?"+src)
-			}
-		case *ast.AssignStmt:
-			if len(s.Lhs) == 1 && strings.HasPrefix(Src(s.Lhs[0]), "c.pendingProcesses[") {
-				if Src(s.Rhs[0]) == "true" {
-					ev = append(ev, "set")
-				} else {
-					ev = append(ev, "?set:"+Src(s.Rhs[0]))
-				}
-			} else if mentions(s, "pendingProcesses") {
-				ev = append(ev, "read")
-			}
-		case *ast.IfStmt:
-			if mentions(s.Cond, "pendingProcesses") || mentions(s.Init, "pendingProcesses") || refersTo(s.Cond, "value") {
-				inner := []string{}
-				if mentions(s.Init, "pendingProcesses") || mentions(s.Cond, "pendingProcesses") {
-					inner = append(inner, "read")
-				}
-				for _, b := range s.Body.List {
-					switch x := b.(type) {
-					case *ast.ExprStmt:
-						if Src(x.X) == "c.processLock.Unlock()" {
-							inner = append(inner, "unlock")
-						}
-					case *ast.ReturnStmt:
-						inner = append(inner, "ret")
-					case *ast.RangeStmt:
-						if containsCall(x, "Stop") {
-							inner = append(inner, "stop")
-						}
-					}
-				}
-				ev = append(ev, "test")
-				*branch = append(*branch, inner...)
-			}
-		}
-	}
-	return ev
-}
-
-func refersTo(n ast.Node, name string) bool {
-	found := false
-	Walk(n, func(m ast.Node) bool {
-		if id, ok := m.(*ast.Ident); ok && id.Name == name {
-			found = true
-		}
-		return true
-	})
-	return found
-}
-
-// unlockedAccesses: in every function of tss/coordinator.go (closures included, each on its own), walk the statement
-// lists in order and report a `pendingProcesses` access that is not between processLock.Lock() and Unlock().
-func unlockedAccesses(o *Out) []string {
-	f := o.ParseFile("tss/coordinator.go")
-	out := []string{}
-	if f == nil {
-		return []string{"?missing"}
-	}
-	var scan func(name string, list []ast.Stmt, held bool) bool
-	scan = func(name string, list []ast.Stmt, held bool) bool {
-		for _, st := range list {
-			if es, ok := st.(*ast.ExprStmt); ok {
-				switch Src(es.X) {
-				case "c.processLock.Lock()":
-					held = true
-					continue
-				case "c.processLock.Unlock()":
-					held = false
-					continue
-				}
-			}
-			switch s := st.(type) {
-			case *ast.IfStmt:
-				if (mentions(s.Cond, "pendingProcesses") || mentions(s.Init, "pendingProcesses")) && !held {
-					out = append(out, name)
-				}
-				// a branch that unlocks and returns does not change the state after the `if`
-				scan(name, s.Body.List, held)
-				continue
-			case *ast.BlockStmt:
-				held = scan(name, s.List, held)
-				continue
-			case *ast.DeferStmt:
-				if fl, ok := s.Call.Fun.(*ast.FuncLit); ok {
-					scan(name+".defer", fl.Body.List, false)
-				}
-				continue
-			case *ast.RangeStmt, *ast.ForStmt:
-				if mentions(st, "pendingProcesses") && !held {
-					out = append(out, name)
-				}
-				continue
-			}
-			if mentions(st, "pendingProcesses") && !held {
-				out = append(out, name)
-			}
-		}
-		return held
-	}
-	for _, d := range f.Decls {
-		if fd, ok := d.(*ast.FuncDecl); ok && fd.Body != nil && fd.Name.Name != "NewCoordinator" {
-			scan(fd.Name.Name, fd.Body.List, false)
-		}
-	}
-	return out
-}
-
 // handlerEvents: calls and returns of a HandleEvents body in source order, from the first process constructor on.
-func handlerEvents(fd *ast.FuncDecl) []string {
+func handlerEvents(fd *ast.FuncDecl) ([]string, bool) {
 	if fd == nil || fd.Body == nil {
-		return []string{"?missing"}
+		return nil, false
 	}
 	ev := []string{}
-	started := false
+	started, executed, closure := false, false, false
 	var visit func(n ast.Node)
 	visit = func(n ast.Node) {
 		ast.Inspect(n, func(m ast.Node) bool {
 			switch x := m.(type) {
 			case *ast.FuncLit:
 				if started {
-					ev = append(ev, "?closure")
+					closure = true
 				}
 				return false
 			case *ast.ReturnStmt:
@@ -372,18 +641,16 @@ func handlerEvents(fd *ast.FuncDecl) []string {
 				for _, a := range x.Args {
 					visit(a)
 				}
-				switch selName(x) {
-				case "NewKeygen", "NewResharing", "NewSigning":
+				n := selName(x)
+				switch {
+				case n == "NewKeygen" || n == "NewResharing" || n == "NewSigning":
 					started = true
 					ev = append(ev, "new")
-				case "Execute":
-					if started {
-						ev = append(ev, "execute")
-					}
-				case "Stop":
-					if started {
-						ev = append(ev, "stop")
-					}
+				case started && len(x.Args) == 3 && (n == "Execute" || strings.Contains(Src(x.Args[1]), "TssProcess")):
+					executed = true
+					ev = append(ev, "execute")
+				case started && n == "Stop":
+					ev = append(ev, "stop")
 				}
 				visit(x.Fun)
 				return false
@@ -392,5 +659,165 @@ func handlerEvents(fd *ast.FuncDecl) []string {
 		})
 	}
 	visit(fd.Body)
-	return ev
+	return ev, started && executed && !closure
+}
+
+// ---------------------------------------------------------------- C09
+
+func c09facts(o *Out) {
+	f := o.ParseFile("tss/coordinator.go")
+	fd := executeFunc(f)
+	lock, pending := coordFields(f)
+	ok := fd != nil && lock != "" && pending != ""
+	ev, branch := []string{}, []string{}
+	if ok {
+		ev, branch, ok = admissionEvents(fd, lock, pending)
+	}
+	if !ok {
+		o.Unavailable("admission", "test and set of the pending flag are not direct statements of Coordinator.Execute (or its mutex / map fields were not located)")
+	}
+	o.Facts["admission"] = ev
+	o.Facts["refusal_branch"] = branch
+	o.Lean.WriteString("/-- top-level events of `Coordinator.Execute` up to its `defer`: yield (the replay hook) | lock | unlock | set | test\n    (the `if` on the pending flag) | read (the flag read into a local) -/\n")
+	o.Lean.WriteString("def admission : Option (List String) := " + LeanOpt(ok, LeanStrList(ev)) + "\n\n")
+	o.Lean.WriteString("/-- what the refusing branch does: unlock | stop | ret -/\n")
+	o.Lean.WriteString("def refusalBranch : Option (List String) := " + LeanOpt(ok, LeanStrList(branch)) + "\n\n")
+	un, ok2 := unlockedAccesses(f, lock, pending)
+	if !ok2 {
+		o.Unavailable("unlockedAccesses", "the coordinator's mutex / pending-map fields were not located")
+	}
+	o.Facts["pending_accesses_outside_lock"] = un
+	o.Lean.WriteString("/-- functions of tss/coordinator.go that touch the pending map at top level without holding the coordinator's mutex -/\n")
+	o.Lean.WriteString("def unlockedAccesses : Option (List String) := " + LeanOpt(ok2, LeanStrList(un)) + "\n")
+}
+
+func lockCall(e ast.Expr, lock, method string) bool {
+	c, ok := e.(*ast.CallExpr)
+	if !ok {
+		return false
+	}
+	s, ok := c.Fun.(*ast.SelectorExpr)
+	if !ok || s.Sel.Name != method {
+		return false
+	}
+	inner, ok := s.X.(*ast.SelectorExpr)
+	return ok && inner.Sel.Name == lock
+}
+
+// admissionEvents: top-level statements of Execute before the first defer. ok = both a test and a set were found.
+func admissionEvents(fd *ast.FuncDecl, lock, pending string) (ev, branch []string, ok bool) {
+	locals := map[string]bool{}
+	test, set := false, false
+	for _, st := range fd.Body.List {
+		if _, isDefer := st.(*ast.DeferStmt); isDefer {
+			break
+		}
+		switch s := st.(type) {
+		case *ast.ExprStmt:
+			switch {
+			case strings.HasPrefix(Src(s.X), "verifhook.Yield("):
+				ev = append(ev, "yield")
+			case lockCall(s.X, lock, "Lock"):
+				ev = append(ev, "lock")
+			case lockCall(s.X, lock, "Unlock"):
+				ev = append(ev, "unlock")
+			case mentionsField(s.X, pending):
+				ev = append(ev, "other")
+			}
+		case *ast.AssignStmt:
+			if len(s.Lhs) == 1 && mentionsField(s.Lhs[0], pending) {
+				if len(s.Rhs) == 1 && Src(s.Rhs[0]) == "true" {
+					ev = append(ev, "set")
+					set = true
+				} else {
+					ev = append(ev, "other")
+				}
+			} else if mentionsField(s, pending) {
+				ev = append(ev, "read")
+				for _, l := range s.Lhs {
+					if id, isId := l.(*ast.Ident); isId {
+						locals[id.Name] = true
+					}
+				}
+			}
+		case *ast.IfStmt:
+			if mentionsField(s.Cond, pending) || mentionsField(s.Init, pending) || refersToAny(s.Cond, locals) {
+				test = true
+				ev = append(ev, "test")
+				for _, b := range s.Body.List {
+					switch x := b.(type) {
+					case *ast.ExprStmt:
+						if lockCall(x.X, lock, "Unlock") {
+							branch = append(branch, "unlock")
+						}
+					case *ast.ReturnStmt:
+						branch = append(branch, "ret")
+					}
+				}
+				if s.Else != nil && mentionsField(s.Else, pending) {
+					ev = append(ev, "other")
+				}
+			}
+		default:
+			if mentionsField(st, pending) {
+				ev = append(ev, "other")
+			}
+		}
+	}
+	_ = token.NoPos
+	return ev, branch, test && set
+}
+
+// unlockedAccesses: in every function of tss/coordinator.go (deferred closures on their own), walk the statement lists
+// in order and report an access to the pending map that is not between <x>.<lock>.Lock() and Unlock().
+func unlockedAccesses(f *ast.File, lock, pending string) ([]string, bool) {
+	out := []string{}
+	if f == nil || lock == "" || pending == "" {
+		return out, false
+	}
+	var scan func(name string, list []ast.Stmt, held bool) bool
+	scan = func(name string, list []ast.Stmt, held bool) bool {
+		for _, st := range list {
+			if es, ok := st.(*ast.ExprStmt); ok {
+				if lockCall(es.X, lock, "Lock") {
+					held = true
+					continue
+				}
+				if lockCall(es.X, lock, "Unlock") {
+					held = false
+					continue
+				}
+			}
+			switch s := st.(type) {
+			case *ast.IfStmt:
+				if (mentionsField(s.Cond, pending) || mentionsField(s.Init, pending)) && !held {
+					out = append(out, name)
+				}
+				scan(name, s.Body.List, held) // a branch that unlocks and returns does not change the state after the `if`
+				continue
+			case *ast.BlockStmt:
+				held = scan(name, s.List, held)
+				continue
+			case *ast.DeferStmt:
+				if lockCall(s.Call, lock, "Unlock") {
+					continue // held until the function returns
+				}
+				if fl, ok := s.Call.Fun.(*ast.FuncLit); ok {
+					scan(name+".defer", fl.Body.List, false)
+				}
+				continue
+			}
+			if mentionsField(st, pending) && !held {
+				out = append(out, name)
+			}
+		}
+		return held
+	}
+	for _, d := range f.Decls {
+		if fd, ok := d.(*ast.FuncDecl); ok && fd.Body != nil && fd.Recv != nil {
+			// (constructors build the map before the object is shared)
+			scan(fd.Name.Name, fd.Body.List, false)
+		}
+	}
+	return out, true
 }
